@@ -8,6 +8,7 @@ S(w) == O("s", w, 0)
 K == O("k", 0, 0)
 A == O("a", 0, 0)
 C(w, r) == O("c", w, r)
+U == O("u", 0, 0)
 Cfg(kinds, bound, emode, prog) == [kinds |-> kinds, bound |-> bound, emode |-> emode, prog |-> prog]
 Modes == {<<"i", "i">>, <<"i", "q">>, <<"q", "q">>}
 
@@ -27,6 +28,12 @@ Cfg_small ==
 \* the quick tier's exhaustive run: slot reuse, wake_one + wake_all against a canceller, inline + queued executor
 Cfg_quick ==
   { Cfg(<< <<"m", "m">>, <<"m">> >>, <<1, 2>>, <<"i", "q">>, << <<S(1), S(2)>>, <<K, A>>, <<C(2, 1)>> >>) }
+\* value changes: wakers store a new value then wake; waiters wait for the old / the current value (lost wake-up clause)
+Cfg_val ==
+  { Cfg(<< <<"m", "d">>, <<"d", "m">> >>, <<1, 2>>, em, << <<S(1), S(2)>>, <<U, A>>, <<U, K>> >>) : em \in {<<"i", "i">>, <<"i", "q">>} }
+  \cup { Cfg(<< <<"d", "d">>, <<"d">> >>, <<1, 1>>, <<"i", "i">>, << <<S(1)>>, <<S(2), U, A>>, <<U, A>>, <<C(1, 1)>> >>) }
+Cfg_valq ==
+  { Cfg(<< <<"m", "d">>, <<"d">> >>, <<1, 2>>, <<"i", "q">>, << <<S(1), S(2)>>, <<U, A>>, <<U, K>> >>) }
 \* three waiters, wake_one against wake_all against a canceller
 Cfg_3w ==
   { Cfg(<< <<"m">>, <<"m">>, <<"m">> >>, <<1, 2, 1>>, em, << <<S(1), S(2), S(3)>>, <<K>>, <<A>>, <<C(2, 1)>> >>) : em \in {<<"i", "q">>, <<"i", "i">>} }
